@@ -91,7 +91,7 @@ func mutateGenesis(a *app.Teleport, g map[string]json.RawMessage) {
 }
 
 func newWorld(t *rapid.T, r *rec.Recorder, numVals int) *world {
-	c := kit.NewChain("teleport_9000-1", kit.ChainOpts{Seed: []byte("c17"), NumValidators: numVals, NumAccounts: 8, GenesisMutator: mutateGenesis})
+	c := kit.NewChain("teleport_9000-1", kit.ChainOpts{Seed: []byte("c17"), NumValidators: numVals, NumAccounts: 8, GenesisMutator: mutateGenesis, BalanceCoins: 1_000_000})
 	w := &world{t: t, r: r, c: c, triples: map[string]bool{}}
 	w.whale = c.Accounts[0]
 	w.proposer = c.Accounts[3]
